@@ -640,6 +640,7 @@ class MessageManager(ClientLike):
             header (MessageHeader): Message header to send
             payload (Union[bytes, MessageData]): Message data to send
         """
+        failed: List[Tuple[Module, ConnectionError]] = []
         for module in list(self.logger_modules):
             if module not in self.logger_modules:
                 # removed while another logger's failure was being reported
@@ -651,13 +652,19 @@ class MessageManager(ClientLike):
                 module.send_message(header, payload)
                 module.drops = 0
             except ConnectionError as err:
+                failed.append((module, err))
+
+        # As in forward_message: failures are reported only after every logger has been
+        # served, so that all loggers see this message and the notices in the same order.
+        for module, err in failed:
+            if self.modules.get(module.conn) is module:
                 self.remove_module(module)
-                self.logger.error(f"Connection Error on write to {module!s} - {err!s}")
-                print("x", end="", flush=True)
-                # this could result in infinite recursion,
-                # this is prevented by send_failed_message returning if
-                # failed message type is failed_message.
-                self.send_failed_message(module, header, time.perf_counter())
+            self.logger.error(f"Connection Error on write to {module!s} - {err!s}")
+            print("x", end="", flush=True)
+            # this could result in infinite recursion,
+            # this is prevented by send_failed_message returning if
+            # failed message type is failed_message.
+            self.send_failed_message(module, header, time.perf_counter())
 
     def send_message(
         self,
